@@ -121,14 +121,12 @@ Ltac fo_step :=
 Lemma fo_get_data_type_te l g c t : fails_only ident_site (get_data_type_te l g c t).
 Proof.
   induction t as [n | size base inf]; cbn [get_data_type_te].
-  - destruct (text_eqb _ _); [apply fo_ok|].
-    destruct (lt_lookup l g _) as [[]|]; repeat fo_step; destruct a; apply fo_ok.
+  - destruct (lt_lookup l g _) as [[]|]; repeat fo_step; destruct a; apply fo_ok.
   - (* the nested occurrence: redo the induction by hand below *)
     destruct base as [[b off]|]; [|apply fo_ok].
     apply fo_bind.
     + revert b. fix IH 1. intros b. destruct b as [n | size' base' inf']; cbn [get_data_type_te].
-      * destruct (text_eqb _ _); [apply fo_ok|].
-        destruct (lt_lookup l g _) as [[]|]; repeat fo_step; destruct a; apply fo_ok.
+      * destruct (lt_lookup l g _) as [[]|]; repeat fo_step; destruct a; apply fo_ok.
       * destruct base' as [[b' off']|]; [|apply fo_ok].
         apply fo_bind; [apply IH | intros [b1 bt] _; apply fo_ok].
     + intros [b1 bt] _. apply fo_ok.
